@@ -108,6 +108,8 @@ type FnTrans struct {
 	assumpTerms []string
 	knownRefs map[string]bool
 	strPairs map[string]bool
+	privateAlloc map[ssa.Value]bool
+	privateRefs map[string]bool
 	phase2 bool
 	siteRanks map[*SiteSpec]map[ssa.Instruction]int
 	constArrs map[string]string
@@ -1090,6 +1092,7 @@ func (t *FnTrans) mergeVals(ty types.Type, conds []string, vs []Val) Val {
 func (t *FnTrans) Translate() {
 	fn := t.fn
 	t.findLoops()
+	t.escapeAnalysis()
 	for _, li := range t.loops {
 		t.loopMods(li)
 	}
@@ -1309,8 +1312,11 @@ func (t *FnTrans) loopHeader(b *ssa.BasicBlock, li *loopInfo, preds []*ssa.Basic
 
 func (t *FnTrans) havocLoopState(st *HeapState, li *loopInfo) *HeapState {
 	if li.modAll {
-		t.note("loop %d: whole heap havocked at the loop head (unknown call or unmodelled effect in the body)", li.ordinal)
-		return t.havocAll(st)
+		t.note("loop %d: whole heap havocked at the loop head (unknown call or unmodelled effect in the body), except private objects' components the loop does not write", li.ordinal)
+		ns := t.newEpochState()
+		t.preserveLocalsExcept(st, ns, li.mods)
+		// ghost state changes only through contracts inside the loop; keep it unless a site updates it
+		return ns
 	}
 	if len(li.mods) == 0 {
 		return st
@@ -1339,14 +1345,208 @@ func (t *FnTrans) havocLoopState(st *HeapState, li *loopInfo) *HeapState {
 	return ns
 }
 
-// havocAll: everything may have changed.
+// havocAll: everything may have changed, except objects this function
+// allocated and never let escape (their fields, elements and map contents are
+// carried over).
 func (t *FnTrans) havocAll(st *HeapState) *HeapState {
-	return t.newEpochState()
+	ns := t.newEpochState()
+	t.preserveLocals(st, ns)
+	return ns
+}
+
+func (t *FnTrans) preserveLocals(st, ns *HeapState) {
+	t.preserveLocalsExcept(st, ns, nil)
+}
+
+func (t *FnTrans) preserveLocalsExcept(st, ns *HeapState, mods map[string]bool) {
+	if len(t.privateRefs) == 0 {
+		return
+	}
+	var comps []string
+	for c := range t.compSorts {
+		if strings.HasPrefix(c, "G.") {
+			continue
+		}
+		if mods[c] {
+			continue
+		}
+		if strings.HasPrefix(c, "M.") {
+			skip := false
+			for m := range mods {
+				if strings.HasPrefix(m, "M:") && strings.HasPrefix(c, "M."+m[2:]+".") {
+					skip = true
+				}
+			}
+			if skip {
+				continue
+			}
+		}
+		comps = append(comps, c)
+	}
+	sort.Strings(comps)
+	var refs []string
+	for r := range t.privateRefs {
+		refs = append(refs, r)
+	}
+	sort.Strings(refs)
+	for _, c := range comps {
+		srt := t.compSorts[c]
+		old := t.heapGet(st, c, srt)
+		cur := t.heapGet(ns, c, srt)
+		for _, r := range refs {
+			cur = sx("store", cur, r, sx("select", old, r))
+		}
+		t.heapSet(ns, c, srt, cur)
+	}
+}
+
+// escapeAnalysis computes the allocation sites whose objects stay private to
+// this function: never passed to a call that may retain or write them, never
+// stored into memory that is not itself private, never captured.
+func (t *FnTrans) escapeAnalysis() {
+	t.privateAlloc = map[ssa.Value]bool{}
+	isAllocSite := func(v ssa.Value) bool {
+		switch v.(type) {
+		case *ssa.Alloc, *ssa.MakeMap, *ssa.MakeSlice:
+			return true
+		}
+		return false
+	}
+	var root func(v ssa.Value, depth int) ssa.Value
+	root = func(v ssa.Value, depth int) ssa.Value {
+		if depth > 30 {
+			return nil
+		}
+		switch a := v.(type) {
+		case *ssa.Alloc, *ssa.MakeMap, *ssa.MakeSlice:
+			return v
+		case *ssa.FieldAddr:
+			return root(a.X, depth+1)
+		case *ssa.IndexAddr:
+			return root(a.X, depth+1)
+		case *ssa.Slice:
+			return root(a.X, depth+1)
+		case *ssa.ChangeType:
+			return root(a.X, depth+1)
+		}
+		return nil
+	}
+	escaping := map[ssa.Value]bool{}
+	storedInto := map[ssa.Value][]ssa.Value{} // alloc -> containers it was stored into
+	for _, b := range t.fn.Blocks {
+		for _, in := range b.Instrs {
+			v, ok := in.(ssa.Value)
+			if ok && isAllocSite(v) {
+				t.privateAlloc[v] = true
+			}
+		}
+	}
+	mark := func(v ssa.Value) {
+		if r := root(v, 0); r != nil {
+			escaping[r] = true
+		}
+	}
+	for _, b := range t.fn.Blocks {
+		for _, in := range b.Instrs {
+			switch x := in.(type) {
+			case *ssa.Store:
+				if r := root(x.Val, 0); r != nil {
+					if c := root(x.Addr, 0); c != nil {
+						storedInto[r] = append(storedInto[r], c)
+					} else {
+						escaping[r] = true
+					}
+				}
+			case *ssa.MapUpdate:
+				for _, val := range []ssa.Value{x.Key, x.Value} {
+					if r := root(val, 0); r != nil {
+						if c := root(x.Map, 0); c != nil {
+							storedInto[r] = append(storedInto[r], c)
+						} else {
+							escaping[r] = true
+						}
+					}
+				}
+			case *ssa.Call:
+				c := x.Common()
+				pure := false
+				if bi, ok := c.Value.(*ssa.Builtin); ok {
+					switch bi.Name() {
+					case "len", "cap", "copy", "delete", "min", "max", "print", "println":
+						pure = true
+					case "append":
+						// the appended slice may alias the result; treat operands as flowing into the result
+						pure = false
+					}
+				} else if callee := c.StaticCallee(); callee != nil {
+					if t.W.intrinsicPure(callee) {
+						pure = true
+					}
+					if con := t.W.contractFor(callee); con != nil && con.Pure {
+						pure = true
+					}
+				}
+				if !pure {
+					for _, a := range c.Args {
+						mark(a)
+					}
+					if c.IsInvoke() {
+						mark(c.Value)
+					}
+				}
+			case *ssa.Defer:
+				for _, a := range x.Common().Args {
+					mark(a)
+				}
+			case *ssa.Go:
+				for _, a := range x.Common().Args {
+					mark(a)
+				}
+			case *ssa.MakeClosure:
+				for _, bnd := range x.Bindings {
+					mark(bnd)
+				}
+			case *ssa.MakeInterface:
+				mark(x.X)
+			case *ssa.Phi:
+				for _, e := range x.Edges {
+					mark(e)
+				}
+			case *ssa.Send:
+				mark(x.X)
+			case *ssa.Return:
+				// returning does not expose the object before the function ends
+			case *ssa.Extract, *ssa.Field:
+			}
+		}
+	}
+	// propagate through containers
+	for changed := true; changed; {
+		changed = false
+		for a, cs := range storedInto {
+			if escaping[a] {
+				continue
+			}
+			for _, c := range cs {
+				if escaping[c] {
+					escaping[a] = true
+					changed = true
+					break
+				}
+			}
+		}
+	}
+	for a := range t.privateAlloc {
+		if escaping[a] {
+			delete(t.privateAlloc, a)
+		}
+	}
 }
 
 // havocAllKeepGhost: unknown (contract-less) code cannot touch ghost state.
 func (t *FnTrans) havocAllKeepGhost(st *HeapState) *HeapState {
 	ns := t.newEpochState()
+	t.preserveLocals(st, ns)
 	var ks []string
 	for c := range t.compSorts {
 		if strings.HasPrefix(c, "G.") {
